@@ -83,6 +83,9 @@ def oracle(ctx, lines, out):
         o = out[i]
         if o.startswith('err'):
             continue
+        if o.startswith('wrapper-differs'):
+            add('%s:wrapper' % sym, i, 'the package-level wrapper disagrees with the method it wraps: %s (%s)' % (o, lines[i][:80]))
+            continue
         if not o.startswith('ok '):
             add('%s:render-%s' % (sym, o.split()[0]), i, 'Encode %s on %s' % (o.split()[0], lines[i][:80]))
             continue
